@@ -35,6 +35,7 @@ type runObs struct {
 	AccMeta  map[machine.AccountAddress]map[string]machine.Value
 	Printed  []machine.Value
 	Vars     map[string]machine.Value
+	AllVars  map[string]machine.Value // every declared variable (plain, meta(), balance()) after resolution
 	Prog     *program.Program
 	Elapsed  time.Duration
 }
@@ -131,6 +132,20 @@ func runProgram(prog *program.Program, in nsx.Input) (ob runObs) {
 	if err := m.ResolveBalances(context.Background(), st); err != nil {
 		ob.Stage, ob.Class = "balances", classify("balances", err)
 		return
+	}
+	ob.AllVars = map[string]machine.Value{}
+	for i, res := range prog.Resources {
+		if i >= len(m.Resources) {
+			break
+		}
+		switch res := res.(type) {
+		case program.Variable:
+			ob.AllVars[res.Name] = m.Resources[i]
+		case program.VariableAccountMetadata:
+			ob.AllVars[res.Name] = m.Resources[i]
+		case program.VariableAccountBalance:
+			ob.AllVars[res.Name] = m.Resources[i]
+		}
 	}
 	stage = "run"
 	extra := metadata.Metadata{}
@@ -370,6 +385,15 @@ func oracles(r *vx.Run, in nsx.Input, ast *nsx.Script, ob runObs) {
 	if ob.Elapsed > 2*time.Second {
 		r.FailP("C12", "slow:"+ob.Stage, in, ob.Elapsed.String(), size)
 	}
+	// C08: a script all of whose sends draw on an unbounded source (@world or unbounded overdraft) and whose
+	// amounts are non-negative can always be funded: "insufficient funds" is then not what the source text defines
+	if ast != nil && ob.Stage == "run" && ob.Class == "EInsufficient" && allUnbounded(ast) {
+		cause := "other"
+		if keptThenMax(ast) {
+			cause = "kept-entry-before-later-max-in-ordered-destination"
+		}
+		r.FailP("C08", "spurious-insufficient-funds:"+cause, in, "every send has an unbounded source, yet the run fails with insufficient funds", size)
+	}
 	if ob.Stage != "done" || ast == nil {
 		return
 	}
@@ -380,7 +404,7 @@ func oracles(r *vx.Run, in nsx.Input, ast *nsx.Script, ob runObs) {
 		}
 	}
 	// C01: floor
-	unb, bnd := collectGrants(ast, ob.Vars)
+	unb, bnd := collectGrants(ast, ob.AllVars)
 	running := map[string]*big.Int{}
 	get := func(a, s string) *big.Int {
 		k := a + "\x00" + s
@@ -400,7 +424,7 @@ func oracles(r *vx.Run, in nsx.Input, ast *nsx.Script, ob runObs) {
 		amt := (*big.Int)(p.Amount)
 		if p.Source != "world" && !unb[p.Source] {
 			avail := new(big.Int).Set(get(p.Source, p.Asset))
-			if g, ok := bnd[p.Source]; ok {
+			if g, ok := bnd[p.Source]; ok && g.Sign() > 0 {
 				avail.Add(avail, g)
 			}
 			if avail.Sign() < 0 {
@@ -416,6 +440,106 @@ func oracles(r *vx.Run, in nsx.Input, ast *nsx.Script, ob runObs) {
 		k2 := p.Destination + "\x00" + p.Asset
 		running[k2] = new(big.Int).Add(get(p.Destination, p.Asset), amt)
 	}
+}
+
+func hasFallback(s *nsx.Source) bool {
+	switch s.K {
+	case "account":
+		return s.Ov == "unbounded" || (s.Acc.K == "acc" && s.Acc.Text == "world")
+	case "inorder":
+		return len(s.Srcs) > 0 && hasFallback(s.Srcs[len(s.Srcs)-1])
+	}
+	return false
+}
+
+func nonNegLiteral(e *nsx.Expr) bool { return e != nil && e.K == "mon" }
+
+func allUnbounded(ast *nsx.Script) bool {
+	n := 0
+	for _, st := range ast.Stmts {
+		switch st.K {
+		case "send":
+			n++
+			if st.All != nil || !nonNegLiteral(st.Mon) {
+				return false
+			}
+			if st.Src.Src != nil {
+				if !hasFallback(st.Src.Src) {
+					return false
+				}
+			} else {
+				for _, a := range st.Src.Allot {
+					if !hasFallback(a.S) {
+						return false
+					}
+				}
+			}
+		case "save", "fail":
+			return false
+		}
+	}
+	return n > 0
+}
+
+// leavesLeftover: the entry does not send everything it is given (kept, or a destination containing kept)
+func leavesLeftover(k nsx.Kod) bool {
+	if k.Kept {
+		return true
+	}
+	d := k.D
+	switch d.K {
+	case "inorder":
+		for _, m := range d.Maxes {
+			if leavesLeftover(m.K) {
+				return true
+			}
+		}
+		return leavesLeftover(*d.Rem)
+	case "allot":
+		for _, a := range d.Allot {
+			if leavesLeftover(a.K) {
+				return true
+			}
+		}
+	}
+	return false
+}
+
+// keptThenMax: some ordered destination has an entry that keeps funds back followed by a later entry
+func keptThenMax(ast *nsx.Script) bool {
+	var walk func(d *nsx.Dest) bool
+	walkK := func(k nsx.Kod) bool { return !k.Kept && walk(k.D) }
+	walk = func(d *nsx.Dest) bool {
+		switch d.K {
+		case "inorder":
+			kept := false
+			for _, m := range d.Maxes {
+				if kept {
+					return true
+				}
+				if leavesLeftover(m.K) {
+					kept = true
+				}
+				if walkK(m.K) {
+					return true
+				}
+			}
+			return walkK(*d.Rem)
+		case "allot":
+			for _, a := range d.Allot {
+				if walkK(a.K) {
+					return true
+				}
+			}
+		}
+		return false
+	}
+	for _, st := range ast.Stmts {
+		if st.K == "send" && walk(st.Dest) {
+			return true
+		}
+	}
+	return false
 }
 
 // C08/C12: a compiled program is reusable and recompilation is deterministic
